@@ -295,8 +295,48 @@ impl Node {
     /// Hard deletions are not synchronized
     ///
     pub fn delete(id: &Uid, conn: &Connection) -> std::result::Result<(), rusqlite::Error> {
+        Self::delete_from_index(
+            "SELECT rowid, _json FROM _node WHERE id=? AND EXISTS (SELECT 1 FROM _node_fts WHERE _node_fts.rowid=_node.rowid)",
+            [id],
+            conn,
+        )?;
         let mut delete_stmt = conn.prepare_cached("DELETE FROM _node WHERE id=? ")?;
         delete_stmt.execute([id])?;
+        Ok(())
+    }
+
+    ///
+    /// Removes from the full text index the text of the stored rows that are about to be deleted: _node_fts is keyed by the rowid, which will be reused.
+    /// The query selects the (rowid, _json) of those rows that are in the index:
+    /// removing a text that was never inserted (entity without full text index, row without text) corrupts a contentless index.
+    /// It is run in the write transaction: the text to remove is the text of the version that is stored, which is the one that was indexed
+    ///
+    fn delete_from_index(
+        query: &str,
+        params: impl rusqlite::Params,
+        conn: &Connection,
+    ) -> std::result::Result<(), rusqlite::Error> {
+        let mut select_stmt = conn.prepare_cached(query)?;
+        let mut rows = select_stmt.query(params)?;
+        let mut indexed: Vec<(i64, String)> = Vec::new();
+        while let Some(row) = rows.next()? {
+            let json: Option<String> = row.get(1)?;
+            let mut text = String::new();
+            if let Some(json) = json {
+                //no error in the write thread: a stored json is valid
+                let Ok(val) = serde_json::from_str::<Value>(&json) else {
+                    continue;
+                };
+                let _ = extract_json(&val, &mut text);
+            }
+            indexed.push((row.get(0)?, text));
+        }
+        let mut delete_fts_stmt = conn.prepare_cached(
+            "INSERT INTO _node_fts (_node_fts, rowid, text) VALUES('delete', ?, ?)",
+        )?;
+        for (rowid, text) in indexed {
+            delete_fts_stmt.execute((rowid, text))?;
+        }
         Ok(())
     }
 
@@ -982,6 +1022,11 @@ impl NodeDeletionEntry {
         let query = "DELETE FROM _node WHERE room_id=? AND id=?";
         let mut stmt = conn.prepare_cached(query)?;
         for node in nodes {
+            Node::delete_from_index(
+                "SELECT rowid, _json FROM _node WHERE room_id=? AND id=? AND EXISTS (SELECT 1 FROM _node_fts WHERE _node_fts.rowid=_node.rowid)",
+                (node.room_id, node.id),
+                conn,
+            )?;
             stmt.execute((node.room_id, node.id))?;
             node.write(conn)?;
             daily_log.set_need_update(node.room_id, &node.entity, node.deletion_date);
